@@ -67,6 +67,9 @@ def configs(tier, seed):
         out.append(_cfg("symbolic", (3, 4, 2), t, k=2, lens=[1, 2], strategy="in memory", cost=4))
         out.append(_cfg("fullgrid", (3, 4, 2), t, order="reversed", strategy="in memory", cost=3))
     out.append(_cfg("symbolic", (2, 2, 1), (1, 1, 0), k=1, lens=[2], strategy="on disk", cost=1))
+    # two scales written through one accessor, stores interleaved (same shard numbers in both scale directories)
+    out.append(_cfg("twoscales", (2, 2, 2), (1, 1, 0), ("raw", "gzip"), strategy="in memory", cost=3))
+    out.append(_cfg("twoscales", (3, 2, 1), (2, 0, 1), ("gzip", "raw"), strategy="on disk", cost=3))
     if tier == "thorough":
         for g, t in (((3, 4, 2), (2, 2, 0)), ((2, 2, 2), (1, 1, 0)), ((3, 4, 2), (1, 1, 1)), ((2, 1, 3), (0, 1, 0))):
             out.append(_cfg("symbolic", g, t, ("gzip", "gzip"), k=3, lens=[1, 0, 2], strategy="in memory", cost=60, wall=3000))
@@ -154,6 +157,50 @@ def H_fullgrid(ctx, cfg):
     _verify(ctx, env, cfg, ids, payloads)
 
 
+def H_twoscales(ctx, cfg):
+    env = Env()
+    sb, sfa = S.setup(env)
+    grid = cfg["grid"]
+    info = S.make_info(grid, 1, cfg["m"], cfg["s"], cfg["p"], cfg["idx_enc"], cfg["data_enc"])
+    import copy
+    sc2 = copy.deepcopy(info["scales"][0])
+    sc2["key"] = "s1"
+    g2 = [max(1, g - 1) for g in grid]
+    sc2["size"] = list(g2)
+    info["scales"].append(sc2)
+    acc = sfa.ShardedFileAccessor(S.BASE, strategy=cfg["strategy"])
+    acc.info = info
+    per_scale = {S.KEY: (grid, [], []), "s1": (g2, [], [])}
+    allb = []
+    order = []
+    for key, (g, _, _) in per_scale.items():
+        order += [(key, cc) for cc in _grid_coords(g, "raster")]
+    order.sort(key=lambda kc: (kc[1][::2], kc[0]))        # interleave the two scales
+    for i, (key, cc) in enumerate(order):
+        pl = S.payload(f"d{i}", 1 + i % 2)
+        allb.append(list(pl.bs))
+        acc.store_chunk(pl, key, cc)
+        g, ids, pls = per_scale[key]
+        ids.append(z3.BitVecVal(S.morton_int(S.grid_bits(g), (cc[0], cc[2], cc[4])), 64))
+        pls.append(pl)
+    ctx.input("payloads", allb)
+    acc.close()
+    env.run_atexit()
+    ctx.sample(dict(grid=grid, scales=2, files=sorted(p for p in env.fs.files if p.endswith(".shard"))))
+    m, s_, p_ = cfg["m"], cfg["s"], cfg["p"]
+    for key, (g, ids, pls) in per_scale.items():
+        files = {p: d for p, d in env.fs.files.items() if p.startswith(f"{S.BASE}/{key}/")}
+        _check_names(ctx, files, s_)
+        for cid, pl in zip(ids, pls):
+            try:
+                raw, conds = spec.spec_fetch(ctx, files, f"{S.BASE}/{key}", cid, m, s_, p_, cfg["idx_enc"], cfg["data_enc"])
+            except spec.SpecFail as e:
+                ctx.fail("spec-reader-cannot-retrieve-chunk", detail=f"scale {key}: {e}")
+                continue
+            r = (raw == pl) if len(raw) == len(pl) else False
+            ctx.prove(r if isinstance(r, bool) else r.e, "spec-reader-returns-stored-bytes", detail=f"scale {key}")
+
+
 # --------------------------------------------------------------------- replay
 
 class _ConcreteCtx:
@@ -213,6 +260,40 @@ def replay(cfg, cex):
     sfa = load.mod("sharded_file_accessor")
     inp = cex["inputs"]
     grid = cfg["grid"]
+    if cfg["harness"] == "twoscales":
+        import copy
+        info = S.make_info(grid, 1, cfg["m"], cfg["s"], cfg["p"], cfg["idx_enc"], cfg["data_enc"])
+        sc2 = copy.deepcopy(info["scales"][0])
+        sc2["key"] = "s1"
+        g2 = [max(1, g - 1) for g in grid]
+        sc2["size"] = list(g2)
+        info["scales"].append(sc2)
+        with tempfile.TemporaryDirectory() as td:
+            acc = sfa.ShardedFileAccessor(os.path.join(td, "ds"), strategy=cfg["strategy"])
+            acc.info = info
+            per_scale = {S.KEY: (grid, [], []), "s1": (g2, [], [])}
+            order = []
+            for key, (g, _, _) in per_scale.items():
+                order += [(key, cc) for cc in _grid_coords(g, "raster")]
+            order.sort(key=lambda kc: (kc[1][::2], kc[0]))
+            try:
+                for (key, cc), pl in zip(order, inp["payloads"]):
+                    acc.store_chunk(bytes(pl), key, cc)
+                    g, ids, pls = per_scale[key]
+                    ids.append(S.morton_int(S.grid_bits(g), (cc[0], cc[2], cc[4])))
+                    pls.append(bytes(pl))
+                acc.close()
+            except Exception as e:
+                return True, f"writer raised {type(e).__name__}: {e}"
+            probs = []
+            for key, (g, ids, pls) in per_scale.items():
+                old = S.KEY
+                S.KEY = key
+                try:
+                    probs += [f"scale {key}: {x}" for x in real_spec_check(os.path.join(td, "ds", key), cfg, ids, pls)]
+                finally:
+                    S.KEY = old
+        return bool(probs), "; ".join(probs[:3]) or "both scales readable by the spec reader"
     nb = S.grid_bits(grid)
     info = S.make_info(grid, 1, cfg["m"], cfg["s"], cfg["p"], cfg["idx_enc"], cfg["data_enc"])
     with tempfile.TemporaryDirectory() as td:
